@@ -140,9 +140,14 @@ class quadtree(object):
         return None
 
     def search(self, pos):
-        leaf = self.leaf(pos)
-        if leaf: return leaf.search_wave(pos)
-        else: return None
+        # if the wave from the leaf finds nothing (possible when the
+        # domain is not convex), widen the search to its ancestors:
+        node = self.leaf(pos)
+        while node:
+            elt = node.search_wave(pos)
+            if elt: return elt
+            node = node.parent
+        return None
 
     def leaf(self, pos):
         if in_rectangle(pos, self.bounds):
